@@ -116,8 +116,13 @@ def main():
             # name is "<binary-id>::<test path>"; re-run it alone (load-induced timing flakes pass then)
             if len(t) != 2: continue
             binid, test = t
-            rcx, ox = sh(f"cargo nextest run --workspace --tool-config-file pb:/w/lib/nextest.toml --profile pb --offline "
-                         f"-E 'binary_id(={binid}) & test(={test})' 2>&1 | tail -5", cwd=wt, env=env, timeout=1800)
+            # build only the one test binary concerned (lib unit tests, or one integration test)
+            sel = "--lib" if "::" not in binid else "--test " + binid.split("::", 1)[1]
+            try:
+                rcx, ox = sh(f"cargo nextest run --workspace {sel} --tool-config-file pb:/w/lib/nextest.toml --profile pb --offline "
+                             f"-E 'binary_id(={binid}) & test(={test})' 2>&1 | tail -5", cwd=wt, env=env, timeout=2400)
+            except subprocess.TimeoutExpired:
+                ox = "timeout"
             if "1 passed" not in ox:
                 still.append(binid + '::' + test)
         res["suite_stable_pass_failing"] = (len(still) + max(0, len(failing) - 40)) if m else None
